@@ -17,6 +17,8 @@ MOD_LINE = '\n#[cfg(test)]\nmod vx_harness;\n'
 # SIMD build variants of a crate ('field@avx2'): same sources, same harness, other target features, own target directory
 VARIANTS = {'avx2': ('-C target-feature=+avx2', ['avx2']),
             'avx512': ('-C target-feature=+avx2,+avx512f,+avx512bw,+avx512cd,+avx512dq,+avx512vl', ['avx2', 'avx512f', 'avx512bw', 'avx512cd', 'avx512dq', 'avx512vl'])}
+# run-time variants ('plonky2@threads3'): the SAME test binary under another environment (size of the rayon pool the parallel tree construction runs in)
+ENV_VARIANTS = {'threads1': {'RAYON_NUM_THREADS': '1'}, 'threads3': {'RAYON_NUM_THREADS': '3'}, 'threads5': {'RAYON_NUM_THREADS': '5'}, 'threads6': {'RAYON_NUM_THREADS': '6'}}
 
 
 def _write_if_changed(path, text):
@@ -86,8 +88,10 @@ def run(crate_key, prefixes, timeout=3000):
     """-> list of dict(test, status ok|failed|harness-error, cases, failures=[...], wall)"""
     crate_key, _, variant = crate_key.partition('@')
     d, pkg = CRATES[crate_key]
-    target, rustflags = TARGET, None
-    if variant:
+    target, rustflags, extra_env = TARGET, None, {}
+    if variant in ENV_VARIANTS:
+        extra_env = ENV_VARIANTS[variant]
+    elif variant:
         rustflags, need = VARIANTS[variant]
         target = TARGET + '-' + variant
         try:
@@ -112,6 +116,7 @@ def run(crate_key, prefixes, timeout=3000):
                    VERIF_SEED=os.environ.get('VERIF_SEED', '0') or '0')
         if rustflags:
             env['RUSTFLAGS'] = rustflags
+        env.update(extra_env)
         results = []
         filt = ['vx_harness::' + p for p in prefixes]
         feats = []
